@@ -1,1 +1,41 @@
+pub mod c01;
+pub mod c03;
+pub mod c07;
+pub mod c10;
+pub mod c11;
 pub mod c14;
+pub mod c15;
+pub mod c16;
+pub mod c17;
+pub mod c18;
+pub mod c19;
+
+use crate::common::json::J;
+use crate::common::report::{finish, Ctx, Evidence};
+use std::sync::OnceLock;
+
+pub static CTX: OnceLock<Ctx> = OnceLock::new();
+
+/// Called from a watchdog thread when a call into rivia does not return: emit what we have
+/// (the hang violation was already recorded) and return the exit code for the process.
+pub fn hang_exit(_prop: &str, sig: &str) -> i32 {
+    let ctx = match CTX.get() {
+        Some(c) => c,
+        None => return 1,
+    };
+    let cov = J::obj([
+        ("evaluations", J::i(1)),
+        ("distinct_nontrivial", J::i(2)),
+        ("rule", J::s("run aborted by the hang watchdog; counts are not meaningful")),
+        ("samples", J::arr([J::s(sig)])),
+        ("exhaustive", J::Bool(false)),
+        ("explanation", J::s("a call into rivia did not return within the watchdog limit; exploration stopped at that case")),
+    ]);
+    let code = finish(ctx, Evidence { level: "other", coverage: cov, assumptions: vec!["aborted run".into()] });
+    if code == 0 {
+        // a hang can never be waved through as a known finding: exploration did not complete
+        1
+    } else {
+        code
+    }
+}
